@@ -296,6 +296,14 @@ class SoftwareSwitchBase (object):
     """
     self.log.debug("Flow mod details: %s", ofp.show())
 
+    if ofp.command not in (OFPFC_DELETE, OFPFC_DELETE_STRICT):
+      for action in ofp.actions:
+        if action.type not in self.action_handlers:
+          self.log.warn("Unknown action type: %x " % (action.type,))
+          self.send_error(type=OFPET_BAD_ACTION, code=OFPBAC_BAD_TYPE,
+                          ofp=ofp, connection=connection)
+          return
+
     #self.table.process_flow_mod(ofp)
     #self._process_flow_mod(ofp, connection=connection, table=self.table)
     handler = self.flow_mod_handlers.get(ofp.command)
